@@ -93,14 +93,14 @@ func c13InitSeries() {
 	// label sets with DIFFERENT label-name sets (nested, overlapping, disjoint, empty): what a response to
 	// `count(x) by (...)`, `x or y`, `{__name__=~".+"}` carries.  Indices 4.. ; 0..3 share one name set.
 	for _, kv := range [][]string{
-		{"__name__", "m"},                                 // 4: subset of 0..3
-		{"__name__", "m", "s", "0", "job", "a"},           // 5: superset of 0
-		{"__name__", "m", "job", "a"},                     // 6: overlaps 0..3 and 5
-		{"job", "a"},                                      // 7: no metric name (aggregation result)
-		{},                                                // 8: empty label set (count(x))
-		{"instance", "i1", "zone", "z"},                   // 9: disjoint from all others
+		{"__name__", "m"},                       // 4: subset of 0..3
+		{"__name__", "m", "s", "0", "job", "a"}, // 5: superset of 0
+		{"__name__", "m", "job", "a"},           // 6: overlaps 0..3 and 5
+		{"job", "a"},                            // 7: no metric name (aggregation result)
+		{},                                      // 8: empty label set (count(x))
+		{"instance", "i1", "zone", "z"},         // 9: disjoint from all others
 		{"__name__", "m", "s", "0", "job", "a", "env", "p"}, // 10: superset of 5
-		{"zone", "z"},                                     // 11: subset of 9
+		{"zone", "z"}, // 11: subset of 9
 	} {
 		ls := labels.FromStrings(kv...)
 		c13Labels = append(c13Labels, ls)
